@@ -115,7 +115,10 @@ def apply_patch(repo, relpatch):
     files = sorted(set(re.findall(r"^\+\+\+ b/(\S+)", text, flags=re.M)))
     tmp = tempfile.mkdtemp(prefix="spverif_patch_", dir="/tmp")
     try:
+        created = set(re.findall(r"^--- /dev/null\n\+\+\+ b/(\S+)", text, flags=re.M))
         for rel in files:
+            if rel in created:
+                continue                      # a file the patch adds
             try:
                 src = repo.read_text(rel)
             except Exception:
@@ -123,6 +126,8 @@ def apply_patch(repo, relpatch):
             os.makedirs(os.path.dirname(os.path.join(tmp, rel)), exist_ok=True)
             with open(os.path.join(tmp, rel), "w") as fh:
                 fh.write(src)
+        for rel in created:
+            os.makedirs(os.path.dirname(os.path.join(tmp, rel)), exist_ok=True)
         r = subprocess.run(["patch", "-p1", "-s", "-d", tmp, "-i", path], capture_output=True, text=True)
         if r.returncode != 0:
             return None
